@@ -34,6 +34,7 @@ const (
 	stRunning
 	stSleeping
 	stDone
+	stBlocked // inside a bracketed blocking operation of the code under test (no token)
 )
 
 const maxSites = 1 << 13
@@ -49,6 +50,7 @@ const (
 	evStall   = 7
 	evSleep   = 8
 	evSnap    = 9
+	evBlock   = 10
 )
 
 type budgetPanic struct{ yields int64 }
@@ -62,6 +64,7 @@ type task struct {
 	yields    int64
 	opYields  int64
 	opStallNs int64
+	noSwitch  int // depth of critical sections of the code under test (held locks, Once.Do)
 	budget    int64
 	countdown int64
 	curOp     int
@@ -119,7 +122,12 @@ type kernel struct {
 	donefd   [2]int
 	foreign  int
 
+	anyBlocking    bool
+	klock          sync.Mutex
+	blockEvents    int
 	clientsWrapped int
+	inFlight       int
+	opEvents       int
 	setupChain chan struct{}
 	clientHook func(c *http.Client) *http.Client
 }
@@ -225,10 +233,15 @@ func newKernel(p *plan.Plan) *kernel {
 
 func (k *kernel) hooks() *simrt.Hooks {
 	h := &simrt.Hooks{MapOrder: k.mapOrder, Open: simOpen, Foreign: k.foreignSeen, Client: k.clientHook}
+	h.Critical = k.critical
 	if k.mode == "race" {
 		h.Yield = k.yieldRace
 		h.Go = k.goChain
+		h.BlockBegin = k.blockBeginRace
+		h.BlockEnd = k.blockEndRace
 	} else {
+		h.BlockBegin = k.blockBeginBubble
+		h.BlockEnd = k.blockEndBubble
 		h.Yield = k.yieldBubble
 		h.Go = k.goGated
 		if k.childMode == moSorted {
@@ -243,6 +256,18 @@ func (k *kernel) foreignSeen(site int) { k.foreign++ }
 //go:norace
 func (k *kernel) clientWrapped() { k.clientsWrapped++ }
 
+// progress and opsInFlight are read by the stall watchdog from outside the
+// simulated world (approximate reads are fine there).
+//
+//go:norace
+func (k *kernel) progress() int64 { return k.yieldsTotal + k.switches + int64(k.opEvents) }
+
+//go:norace
+func (k *kernel) opsInFlight() int { return k.inFlight }
+
+//go:norace
+func (k *kernel) opDelta(d int) { k.inFlight += d; k.opEvents++ }
+
 // monitorDue bounds the cost of in-flight snapshot verification: every one of
 // the first 1000 context switches, then every 50th (count-based, so the
 // decision is part of the deterministic execution).
@@ -250,6 +275,132 @@ func (k *kernel) clientWrapped() { k.clientsWrapped++ }
 //go:norace
 func (k *kernel) monitorDue() bool {
 	return k.switches <= 1000 || k.switches%50 == 0
+}
+
+// ---------------------------------------------------------------- critical sections and blocking operations of the code under test
+
+//go:norace
+func (k *kernel) critical(delta int) {
+	if simrt.ForeignLive() {
+		return
+	}
+	if t := k.cur; t != nil {
+		t.noSwitch += delta
+		if t.noSwitch < 0 {
+			t.noSwitch = 0
+		}
+	}
+}
+
+// blockBeginBubble: the running task is about to wait for another task
+// (channel operation, WaitGroup, Cond): it gives the token back first.
+func (k *kernel) blockBeginBubble(site int) interface{} {
+	if simrt.ForeignLive() {
+		return nil
+	}
+	t := k.cur
+	if t == nil {
+		return nil
+	}
+	k.blockEvents++
+	k.event(evBlock, int64(t.id), int64(site), k.yieldsTotal)
+	k.fingerprint(evBlock, int64(t.id), int64(site))
+	k.mu.Lock()
+	t.state = stBlocked
+	k.cur = nil
+	k.mu.Unlock()
+	select {
+	case k.wake <- struct{}{}:
+	default:
+	}
+	return t
+}
+
+func (k *kernel) blockEndBubble(tok interface{}) {
+	t, ok := tok.(*task)
+	if !ok || t == nil {
+		return
+	}
+	k.mu.Lock()
+	t.state = stRunnable
+	k.mu.Unlock()
+	select {
+	case k.wake <- struct{}{}:
+	default:
+	}
+	<-t.resume
+}
+
+//go:norace
+func (k *kernel) blockBeginRace(site int) interface{} {
+	if simrt.ForeignLive() {
+		return nil
+	}
+	t := k.cur
+	if t == nil {
+		return nil
+	}
+	k.anyBlocking = true
+	k.blockEvents++
+	k.event(evBlock, int64(t.id), int64(site), k.yieldsTotal)
+	k.fingerprint(evBlock, int64(t.id), int64(site))
+	k.klock.Lock()
+	t.state = stBlocked
+	k.passBatonLocked(t)
+	k.klock.Unlock()
+	return t
+}
+
+//go:norace
+func (k *kernel) blockEndRace(tok interface{}) {
+	t, ok := tok.(*task)
+	if !ok || t == nil {
+		return
+	}
+	k.klock.Lock()
+	if k.cur == nil {
+		// the token is free (everybody else is blocked or done): take it
+		d := k.nextDecision()
+		t.countdown = d.gap
+		t.state = stRunning
+		k.cur = t
+		k.klock.Unlock()
+		return
+	}
+	t.state = stRunnable
+	k.klock.Unlock()
+	var b byte
+	rawRead(t.rfd, &b)
+}
+
+// passBatonLocked hands the token to a runnable task other than t, or leaves
+// it free if there is none. Caller holds klock.
+//
+//go:norace
+func (k *kernel) passBatonLocked(t *task) {
+	var runnable [64]*task
+	n := 0
+	for _, x := range k.tasks {
+		if x != t && x.state == stRunnable && n < len(runnable) {
+			runnable[n] = x
+			n++
+		}
+	}
+	if n == 0 {
+		k.cur = nil
+		return
+	}
+	d := k.nextDecision()
+	pick := d.pick
+	if pick < 0 {
+		pick = -pick
+	}
+	next := runnable[pick%n]
+	next.countdown = d.gap
+	next.state = stRunning
+	k.cur = next
+	var b byte = 1
+	rawWrite(next.wfd, &b)
 }
 
 // ---------------------------------------------------------------- map order
@@ -429,6 +580,11 @@ func (k *kernel) yieldBubble(site int) {
 	}
 	if t.opYields > t.budget {
 		panic(budgetPanic{t.opYields})
+	}
+	if t.noSwitch > 0 {
+		// inside a critical section of the code under test: never preempted,
+		// so no other task can ever wait for this lock
+		return
 	}
 	st := k.p.Schedule.Stalls
 	for k.stallIdx < len(st) && st[k.stallIdx][0] <= k.yieldsTotal {
@@ -635,6 +791,9 @@ func (k *kernel) yieldRace(site int) {
 	if t.opYields > t.budget {
 		panic(budgetPanic{t.opYields})
 	}
+	if t.noSwitch > 0 {
+		return
+	}
 	t.countdown--
 	if t.countdown > 0 {
 		return
@@ -672,23 +831,36 @@ func (k *kernel) recordSnap(t *task, site int, v []string) {
 //
 //go:norace
 func (k *kernel) handoff(t *task, finished bool) {
+	locked := k.anyBlocking
+	if locked {
+		k.klock.Lock()
+	}
 	if finished {
 		t.state = stDone
 	} else {
 		t.state = stRunnable
 	}
 	var runnable [64]*task
-	n := 0
+	n, blocked := 0, 0
 	for _, x := range k.tasks {
-		if x.state != stDone && n < len(runnable) {
+		if x.state == stBlocked {
+			blocked++
+		}
+		if (x.state == stRunnable || x.state == stRunning) && n < len(runnable) {
 			runnable[n] = x
 			n++
 		}
 	}
 	if n == 0 {
 		k.cur = nil
-		var b byte = 1
-		rawWrite(k.donefd[1], &b)
+		if locked {
+			k.klock.Unlock()
+		}
+		if blocked == 0 {
+			var b byte = 1
+			rawWrite(k.donefd[1], &b)
+		}
+		// otherwise the token stays free until a blocked task comes back
 		return
 	}
 	d := k.nextDecision()
@@ -700,6 +872,9 @@ func (k *kernel) handoff(t *task, finished bool) {
 	next.countdown = d.gap
 	next.state = stRunning
 	k.cur = next
+	if locked {
+		k.klock.Unlock()
+	}
 	if next == t {
 		return
 	}
